@@ -43,6 +43,13 @@ def layouts(w, tier):
           (tail - 2) * w, 3 * w + w.bit_length()]
     tw = [v for v in dict.fromkeys(tw) if v < (1 << w)]
     out['tail'] = ([(0, tail)], [0, 1, 2, 3], tw, {})
+    # several lazily-zero segments listed in DESCENDING address order in the file (the reader keeps their zero ranges in file order)
+    if w >= 16:
+        F1, F2 = 1 << 11, 3 << 11
+        lw = [0, 2 * w, 2 * w + 1, (4 + 600) * w, (tail - 1) * w, F1 * w, F1 * w + 1, (F1 + 600) * w, (F1 + 1201) * w, F2 * w, (F2 + 500) * w + 1,
+              3 * w + w.bit_length()]
+        lw = [v for v in dict.fromkeys(lw) if v < (1 << w)]
+        out['lazy-desc'] = ([(F2, 2 + 1000), (F1, 2 + 1200), (0, tail)], [0, 1, 2, 3], lw, {F1: 0, F1 + 1: F1 * w, F2: 2 * w + 1, F2 + 1: F1 * w})
     # an op AT the input bit (ip = 3w+#w, unaligned, spans words 3..5) and right after it
     in_addr = 3 * w + w.bit_length()
     off = in_addr & (w - 1)
